@@ -23,6 +23,9 @@ type ReadResult struct {
 	// Created lists the files ("shm", "wal") this reader itself had to create,
 	// as a SQLite connection opening a WAL-mode database does.
 	Created []string
+	// HotJournal: a rollback journal with a valid header exists next to the database.
+	// A SQLite reader would have to play it back before it could read anything.
+	HotJournal bool
 }
 
 // ReadDB takes the read lock SQLite would take on this node's copy of db, reads
@@ -93,6 +96,21 @@ func (n *Node) ReadDB(owner uint64, db string, under func()) (res ReadResult, er
 		}
 	}
 
+	if !res.WALMode {
+		if jf, e := m.Open(owner, db+"-journal"); e == nil {
+			magic := make([]byte, 8)
+			if k, _ := jf.ReadAt(magic, 0); k == 8 && string(magic) == "\xd9\xd5\x05\xf9\x20\xa1\x63\xd7" {
+				res.HotJournal = true
+			}
+			_ = jf.Close()
+		}
+		if res.HotJournal {
+			// SQLite never reads past a hot journal: it first plays it back (which only a
+			// node with write authority allows) or fails. Either way this reader, which
+			// writes nothing, has nothing to observe right now.
+			return res, pager.ErrBusy
+		}
+	}
 	res.Pos = n.Pos(db)
 	if pf, e := m.Open(owner, db+"-pos"); e == nil {
 		buf := make([]byte, 64)
